@@ -12,7 +12,8 @@
       entered it, its children were visited, every member left it. In particular a run of the standard chain that
       reports nothing has shown every node of the document to every rule.
   This is obstacle (b) of the note in `Props/C06_balanced.lean`; obstacle (a) - the frame property of the 26 rules,
-  needed to compare a rule's reports in the chain with its reports alone - is not proved.
+  needed to compare a rule's reports in the chain with its reports alone - is proved in `Props/C06_chain.lean`
+  (`framed_enterRule`), and with it `chain_silent_iff_alone`: the chain records no error iff every member alone is silent.
   (`KnownTypeNamesChecker._skip` on type-system definitions raises without an error of its own; the model has no nodes
   below a type-system definition, and `ExecutableDefinitionsChecker` reports every such definition.)
 -/
